@@ -375,4 +375,107 @@ def r14_9(ctx):
     ctx.floor(n, 2, "ratio_distribute call sites")
 
 
-RULES = [r14_1, r14_2, r14_3, r14_4, r14_5, r14_6, r14_7, r14_8, r14_9]
+_LAYOUT_MODS = ("columns", "table", "containers", "text", "rule", "bar", "progress_bar", "panel", "padding", "align", "constrain", "_ratio", "_wrap", "segment", "tree", "layout", "spinner", "syntax", "measure", "console", "live_render", "markdown", "pretty", "scope", "box", "cells", "styled", "status", "json", "emoji", "traceback")
+
+
+def r14_10(ctx):
+    from .. import cfg as cfgmod
+    from ..yieldpaths import canon_test
+    ctx.rule("R14.10", "a count obtained by floor division is never used as a divisor unprotected: in the layout code, when a definition `v = a // b` (or int(a / b)) reaches a site that divides by v (v as the right operand of // % / or divmod, directly or as the argument bound to a local closure's parameter that is divided by), the site is dominated by a fact that excludes 0 (v, v > 0, v >= 1, v != 0) or the definition is clamped (max(1, ..), .. or 1) - a quotient is 0 whenever the available width is smaller than the unit, and dividing by it raises ZeroDivisionError while rendering")
+    n = 0
+    for ms in _LAYOUT_MODS:
+        try:
+            m = ctx.repo.mod(ms)
+        except Exception:
+            continue
+        for f in m.functions.values():
+            if m.in_main_guard(f.node):
+                continue
+            # division sites in f (own statements only)
+            sites = []
+            for x in walk_local(f.node):
+                d = None
+                if isinstance(x, ast.BinOp) and isinstance(x.op, (ast.FloorDiv, ast.Mod, ast.Div)):
+                    if isinstance(x.op, ast.Mod) and isinstance(x.left, (ast.Constant, ast.JoinedStr)):
+                        continue
+                    d = x.right
+                elif isinstance(x, ast.Call) and norm(x.func) == "divmod" and len(x.args) == 2:
+                    d = x.args[1]
+                elif isinstance(x, ast.AugAssign) and isinstance(x.op, (ast.FloorDiv, ast.Mod, ast.Div)):
+                    d = x.value
+                if isinstance(d, ast.Name):
+                    sites.append((x, d.id))
+            if not sites:
+                continue
+            g = cfgmod.build(f.node)
+            rd = g.reaching_defs(weak=False)
+
+            def stmt_of(mm, x):
+                while not isinstance(x, ast.stmt):
+                    x = mm.parent_of[x]
+                return x
+
+            def nonzero_facts(gg, st, var):
+                for nid in gg.nodes_of(st):
+                    for t, v in gg.branch_facts(nid):
+                        for a, tv in canon_test(t, v):
+                            if (tv is True and a in (var, f"{var} > 0", f"{var} >= 1", f"{var} != 0", f"0 < {var}", f"1 <= {var}")) or (tv is False and a in (f"not {var}", f"{var} == 0", f"{var} < 1", f"{var} <= 0", f"0 == {var}")):
+                                return True
+                return False
+
+            def quotient(e):
+                if isinstance(e, ast.BinOp) and isinstance(e.op, ast.FloorDiv):
+                    return True
+                if isinstance(e, ast.Call) and norm(e.func) == "int" and len(e.args) == 1 and isinstance(e.args[0], ast.BinOp) and isinstance(e.args[0].op, ast.Div):
+                    return True
+                return False
+
+            def bad_defs(gg, rdd, st, var):
+                out = []
+                for nid in gg.nodes_of(st):
+                    for d in rdd.get(nid, {}).get(var, set()):
+                        nd = gg.nodes[d]
+                        ds = nd.stmt
+                        if nd.kind == "stmt" and isinstance(ds, ast.Assign) and len(ds.targets) == 1 and isinstance(ds.targets[0], ast.Name) and quotient(ds.value):
+                            out.append(ds)
+                return out
+
+            for x, var in sites:
+                st = stmt_of(m, x)
+                n += 1
+                where = f"{m.relpath}:{x.lineno}"
+                if nonzero_facts(g, st, var):
+                    ctx.ok(where, f"division by `{var}` under a fact that excludes 0", f.fq)
+                    continue
+                found = []
+                if var in f.params and f.parent is not None:
+                    # closure parameter: look at the arguments bound to it at the call sites in the enclosing function
+                    par = f.parent
+                    pg = cfgmod.build(par.node)
+                    prd = pg.reaching_defs(weak=False)
+                    idx = f.params.index(var)
+                    for c in walk_local(par.node):
+                        if isinstance(c, ast.Call) and isinstance(c.func, ast.Name) and c.func.id == f.node.name:
+                            arg = c.args[idx] if idx < len(c.args) else None
+                            for k in c.keywords:
+                                if k.arg == var:
+                                    arg = k.value
+                            if isinstance(arg, ast.Name):
+                                cst = stmt_of(m, c)
+                                if nonzero_facts(pg, cst, arg.id):
+                                    continue
+                                for ds in bad_defs(pg, prd, cst, arg.id):
+                                    found.append((ds, f"passed as `{var}` by `{short(c)}` ({m.relpath}:{c.lineno})"))
+                            elif arg is not None and quotient(arg):
+                                found.append((stmt_of(m, c), "passed directly"))
+                else:
+                    for ds in bad_defs(g, rd, st, var):
+                        found.append((ds, "reaches the division"))
+                for ds, how in found:
+                    ctx.violation(f.fq, short(ds), where, f"`{short(ds)}` ({m.relpath}:{ds.lineno}) can be 0 (the numerator may be smaller than the denominator) and {how}: `{short(x)}` then raises ZeroDivisionError while rendering")
+                if not found:
+                    ctx.ok(where, f"no bare quotient reaches the divisor `{var}`", f.fq)
+    ctx.floor(n, 8, "division sites with a local divisor in the layout modules")
+
+
+RULES = [r14_1, r14_2, r14_3, r14_4, r14_5, r14_6, r14_7, r14_8, r14_9, r14_10]
